@@ -183,11 +183,14 @@ def main():
     ap.add_argument("--seed", type=int, default=1)
     ap.add_argument("--out", default="/var/tmp/mutation_sweep.json")
     ap.add_argument("--cat", default="")
+    ap.add_argument("--files", default="", help="regular expression a candidate's file must match")
     a = ap.parse_args()
     random.seed(a.seed)
     cands = list(candidates())
     if a.cat:
         cands = [c for c in cands if c[0] in a.cat.split(",")]
+    if a.files:
+        cands = [c for c in cands if re.search(a.files, c[1])]
     bycat = {}
     for c in cands:
         bycat.setdefault(c[0], []).append(c)
